@@ -11,7 +11,7 @@ from ..cfg import cfg_of
 from ..index import AnalysisError, function_stmts, parent, walk_no_nested
 from ..pipeline import check_pipelines, no_dropped_result, parser_pipelines
 from ..roles import schema_backend_classes, self_method
-from ..util import (Expander, same_module_helpers, bool_atoms, callee_last, calls_in, canon_atom, enclosing_stmt, kw, names_in, path_condition,
+from ..util import (ifexp_guards, Expander, same_module_helpers, bool_atoms, callee_last, calls_in, canon_atom, enclosing_stmt, kw, names_in, path_condition,
                     show_condition, txt)
 
 EXPLANATION = (
@@ -207,7 +207,7 @@ def r5_nulls(ctx):
         cfg = cfg_of(f.node)
         for c in calls_in(f.node):
             if callee_last(c) == "dropna":
-                pc = path_condition(cfg, cfg.node_of(enclosing_stmt(c)).id, keep=keep)
+                pc = path_condition(cfg, cfg.node_of(enclosing_stmt(c)).id, keep=keep, extra=ifexp_guards(c))
                 ok = pc == (("self.check.ignore_na",), frozenset({(True,)}))
                 ctx.ob("R5", f, f"`{txt(c)}` before the check", ok,
                        "only under ignore_na" if ok else f"nulls dropped under {show_condition(pc)}", f.loc(c))
